@@ -72,19 +72,40 @@ func makeBatchQuery(filters []Filter) (string, []interface{}) {
 
 		if len(group.columns) == 1 {
 			column := group.columns[0]
-			clause.WriteString(column)
-			clause.WriteString(" IN (")
-			for j, tuple := range group.tuples {
-				// Separate tuples with commas.
-				if j > 0 {
+			// NULL never compares equal, so "column IN (NULL)" matches nothing.
+			// Filters on a nil value are rendered as "column IS ?" instead, like
+			// SimpleWhere.ToSQL does for a single query.
+			hasNil := false
+			numValues := 0
+			for _, tuple := range group.tuples {
+				if tuple[0] == nil {
+					hasNil = true
+					continue
+				}
+				if numValues == 0 {
+					clause.WriteString(column)
+					clause.WriteString(" IN (")
+				} else {
+					// Separate tuples with commas.
 					clause.WriteString(", ")
 				}
+				numValues++
 
 				// Write (?, ?, ?) string for the tuple, and append the arguments.
 				clause.WriteString("?")
 				args = append(args, tuple...)
 			}
-			clause.WriteString(")")
+			if numValues > 0 {
+				clause.WriteString(")")
+			}
+			if hasNil {
+				if numValues > 0 {
+					clause.WriteString(" OR ")
+				}
+				clause.WriteString(column)
+				clause.WriteString(" IS ?")
+				args = append(args, nil)
+			}
 		} else {
 
 			for i, tuple := range group.tuples {
@@ -99,7 +120,11 @@ func makeBatchQuery(filters []Filter) (string, []interface{}) {
 						clause.WriteString(" AND ")
 					}
 					clause.WriteString(column)
-					clause.WriteString("=?")
+					if tuple[j] == nil {
+						clause.WriteString(" IS ?")
+					} else {
+						clause.WriteString("=?")
+					}
 				}
 				args = append(args, tuple...)
 				if len(group.columns) > 1 {
